@@ -99,10 +99,11 @@ S["C16"] = dict(title="A damaged Persistence never bricks the session: adopt, wa
     "observer = resend onto a fault-free connection; 'can connect' is judged by resend returning nil (connect's own protocol is C18)"],
   bounds={"quick":"<= 2 records per run (<= 6 outbound), 1 damaged, 3 damage kinds, stray entries, ring positions and storage sequence numbers free","thorough":"2 damaged records with <= 1 record per run (<= 3 outbound); sparse runs of <= 4 at-least-once records with 1 further damage. (2 damaged records with 2 records per run did not finish in 20 min and is outside.)"},
   outside=["more than 2 damaged records at once","damage to inbound markers (F11 covers the client-identifier record; the marker case shares its code path)"])
+_ack_foreign = H("verifH_C01_ack", "same one-step lemmas from the state another routine's failed write leaves (connection closed by that writer, write token at connPending): PUBACK/PUBREC/PUBCOMP still applied to store and counters, the PUBREL that cannot be written is saved first and is what the next connection carries", T({"W":2,"wfaults":0,"storefaults":1,"foreign":1}), T({"W":3,"wfaults":0,"storefaults":1,"foreign":1}), ("pubrec-write-failed","puback-applied","pubcomp-applied"))
 S["C03"] = dict(title="Exactly-once publish: no PUBLISH after recorded PUBREC; PUBREL until PUBCOMP", technique=TECH+"; one-step lemmas from INV states plus a composition PUBREC -> reconnect -> restart -> PUBCOMP -> publish", harnesses=[
     _accept_light, _connect_light,
     H("verifH_C03_cycle", "PUBREC (with store/write faults) -> resend in the same process -> AdoptSession -> resend -> PUBCOMP -> new publish", T({"W":1,"wfaults":1,"storefaults":1}), T({"W":2,"wfaults":2,"storefaults":1}, time_sec=1500), ("recorded","not-recorded","completed")),
-    _ack, _resend,
+    _ack, _ack_foreign, _resend,
     H("verifH_C17_ring", "L03.c identifier not reused while fewer than 0x4000 in flight (all wrap positions)"),
     H("verifH_C02_adopt", "L03.b restart resumes each transfer at its stage (PUBREL vs PUBLISH by stored packet type)", T({"shapes":6}), T({"shapes":10}, time_sec=2400), ("adopted","adopted-twice","drained","adopted-twice-pubrec")),
   ],
